@@ -13,6 +13,7 @@ import (
 	"sort"
 
 	"github.com/criyle/go-sandbox/container"
+	"github.com/criyle/go-sandbox/pkg/mount"
 	"github.com/criyle/go-sandbox/pkg/seccomp"
 	"github.com/criyle/go-sandbox/pkg/seccomp/libseccomp"
 	"github.com/criyle/go-sandbox/ptracer"
@@ -227,6 +228,42 @@ func runC12(res *Result, d *Driver, tier string, seed uint64) {
 		}
 		e.Close()
 		res.Case("cycle"+itoa(i), true, "build-destroy")
+	}
+	// ---- builds that are refused at each stage (start of the init, configuration: mounts, work directory, init command):
+	// a refused Build must leave nothing behind either — no child (zombie or live), no descriptor ----
+	{
+		runtime.GC()
+		time.Sleep(20 * time.Millisecond)
+		bChildren, bFds := len(childrenOf(os.Getpid())), fdCount(os.Getpid())
+		bad := []struct {
+			name string
+			b    container.Builder
+		}{
+			{"bind source does not exist", container.Builder{Mounts: mount.NewBuilder().WithBind("/nonexistent-verif-c12", "x", true).Mounts}},
+			{"work directory cannot be created (below a file)", container.Builder{Mounts: mount.NewBuilder().WithBind("/dev/null", "dev/null", false).Mounts, WorkDir: "/dev/null/w"}},
+			{"init command fails", container.Builder{Mounts: mount.NewBuilder().WithBind("/dev/null", "dev/null", false).Mounts, InitCommand: []string{"/nonexistent-verif-c12"}}},
+			{"container init cannot be started", container.Builder{ExecFile: "/nonexistent-verif-c12"}},
+		}
+		reps := 3
+		if tier == "thorough" {
+			reps = 40
+		}
+		for r := 0; r < reps; r++ {
+			for _, c := range bad {
+				e, err := newEnv(c.b)
+				res.Case(fmt.Sprintf("refused build %d: %s", r, c.name), true, "build-refused")
+				if err == nil {
+					// accepted on this machine: an ordinary cycle
+					e.Close()
+				}
+				runtime.GC()
+				if !settle(func() bool { return len(childrenOf(os.Getpid())) <= bChildren && fdCount(os.Getpid()) <= bFds }) {
+					res.Mismatch(Mismatch{Kind: "oracle", What: "a Build that is refused leaves the host at its baseline: no child of the host (live or zombie) and no descriptor stays behind (C12)", Input: "container.Builder{" + c.name + "}.Build()  -> " + fmt.Sprint(err),
+						Impl: fmt.Sprintf("children %v (baseline %d) descriptors %d (baseline %d)", childrenOf(os.Getpid()), bChildren, fdCount(os.Getpid()), bFds), Oracle: "violates"})
+					bChildren, bFds = len(childrenOf(os.Getpid())), fdCount(os.Getpid())
+				}
+			}
+		}
 	}
 	// runs whose context outlives them (context.Background(), or one context shared by many runs): nothing of a finished
 	// run may stay behind waiting for that context
